@@ -50,6 +50,14 @@ CHECKS = {
     "plugins/fcp_can_c/fcp_can_c/generator.py": ["C09", "C14", "C06", "C10"],
     "plugins/fcp_cpp/fcp_cpp/generator.py": ["C03", "C17", "C18", "C10"],
     "plugins/fcp_cpp/fcp_cpp/rpc.py": ["C03", "C17"],
+    "plugins/fcp_can_c/templates/can_device_c.jinja": ["C19", "C06"],
+    "plugins/fcp_can_c/templates/can_signal_parser.c": ["C06", "C19"],
+    "plugins/fcp_cpp/fcp_cpp/buffer.h": ["C03", "C13", "C18"],
+    "plugins/fcp_cpp/fcp_cpp/decoders.h": ["C03", "C13"],
+    "plugins/fcp_cpp/fcp_cpp/can_dynamic_schema.h": ["C18"],
+    "plugins/fcp_cpp/fcp_cpp/can_static_schema.h": ["C18"],
+    "plugins/fcp_cpp/fcp_cpp/dynamic.h.j2": ["C13", "C18"],
+    "plugins/fcp_cpp/fcp_cpp/fcp.h.j2": ["C03", "C13", "C18"],
 }
 
 
